@@ -51,7 +51,7 @@ Fixpoint encode_locs (last : bytes) (frames : list frame) : list bytes :=
   | [] => []
   | f :: fs =>
       let '(path, fname) := cut_last_dot (fr_func f) in
-      if beq path last
+      if beq path last && negb (beq path [])        (* path == lastImport && path != "" *)
       then render_loc [34] fname f :: encode_locs last fs
       else render_loc path fname f :: encode_locs path fs
   end.
@@ -134,12 +134,15 @@ End WithSymboliser.
 Definition no_nl (s : bytes) : bool := negb (is_stack s).
 Definition path_of (s : bytes) : bytes := fst (cut_last_dot s).
 Definition is_ditto (p : bytes) : bool := beq p [34].
-(* a function name the decoder can restore: package path non-empty and not a
-   lone ditto mark, no newline *)
+(* a function name the decoder can restore: no newline, package path not a
+   lone ditto mark (the path may be empty) *)
 Definition fn_roundtrips (fn : bytes) : bool :=
-  no_nl fn && negb (beq (path_of fn) []) && negb (is_ditto (path_of fn)).
+  no_nl fn && negb (is_ditto (path_of fn)).
 (* a function name the rendering identifies: no newline, path not a lone
    ditto mark, no leading dot (".f" and "f" both render as ".f") *)
 Definition fn_identified (fn : bytes) : bool :=
   no_nl fn && negb (is_ditto (path_of fn)) && negb (has_prefix fn [46]).
-Definition prefix_ok (p : bytes) : bool := no_nl p && negb (is_ditto (path_of p)).
+(* a counter name (prefix) the decoder leaves alone: none of its lines has a
+   lone ditto mark before its last dot (newlines in the prefix are allowed) *)
+Definition prefix_ok (p : bytes) : bool :=
+  forallb (fun l => negb (is_ditto (path_of l))) (split_byte p 10).
